@@ -209,6 +209,7 @@ let run_engine (id, lines) =
   let xstops = ref [] and xvehs = ref [] and xopt = ref None in
   let xmults = ref [] and xmopt = ref false in
   let capobj = ref [] in
+  let usol = ref [] in
   let inp = ref None and sols = ref [||] and cur = ref 0 and step = ref 0 in
   let get_inp () = match !inp with Some i -> i | None -> failwith "no build" in
   try
@@ -222,6 +223,8 @@ let run_engine (id, lines) =
     | "xopt" :: [a; b; c; d] -> xopt := Some (z_of_string a, z_of_string b, z_of_string c, z_of_string d)
     | "xstop" :: [i; t; e; l] -> xstops := (int_of_string i, (z_of_string t, z_of_string e, z_of_string l)) :: !xstops
     | "xveh" :: [v; m; q] -> xvehs := (int_of_string v, (z_of_string m, z_of_string q)) :: !xvehs
+    | "usol" :: [kind; k] ->
+        usol := !usol @ [(if kind = "balance" then SBalance (z_of_string k) else SMaxPlanned (z_of_string k))]
     | "xmopt" :: [x] -> xmopt := (x = "1")
     | "capobj" :: [r; f; off] -> capobj := !capobj @ [(i2n (int_of_string r), (z_of_string f, z_of_string off))]
     | "xmult" :: [v; a; b] -> xmults := (int_of_string v, (z_of_string a, z_of_string b)) :: !xmults
@@ -267,7 +270,7 @@ let run_engine (id, lines) =
                   gi_groups = List.map (fun ks -> List.map (fun k -> i2n (unit_of_stop i k)) ks) !groups;
                   gi_initial = List.mapi (fun v _ -> (try List.assoc v !initials with Not_found -> [])) i.in_vehicles } in
         gi := Some g; the_gi := Some g;
-        (match g_new_solution g with
+        (match (match g_new_solution g with Some s0 when sol_ok !usol s0 -> Some s0 | _ -> None) with
          | None -> Printf.printf "%s build solution-error\n" id; raise Exit
          | Some s ->
         sols := [| s |];
@@ -278,6 +281,8 @@ let run_engine (id, lines) =
         let s = !sols.(!cur) in
         let g = (match !gi with Some g -> g | None -> failwith "no build") in
         cur_prefix := Printf.sprintf "%s %d" id !step;
+        (* solution-level user rules (Model/SolUser.v): a guard around the engine's operations *)
+        let guard res = sol_guard !usol (i2n (List.length i.in_user)) s res in
         let noop = ref false in
         let handled = ref false in
         let report res = Printf.printf "%s %d result %s\n" id !step (result_string res) in
@@ -315,7 +320,7 @@ let run_engine (id, lines) =
                else ("unplan", [string_of_int (List.nth keys (int_of_string (List.hd r) mod List.length keys))])
            | "vunplanr" ->
                let v = int_of_string (List.hd r) mod List.length s.st_routes in
-               let (s', res) = g_unplan_vehicle g s (i2n v) in
+               let (s', res) = guard (g_unplan_vehicle g s (i2n v)) in
                !sols.(!cur) <- s'; report res; handled := true; (kind, r)
            | _ -> (kind, r)) in
         if !handled then () else
@@ -331,7 +336,7 @@ let run_engine (id, lines) =
                   let u = unit_of_stop i (int_of_string (List.hd rest)) in
                   let mv = { mv_unit = i2n u; mv_vehicle = i2n (int_of_string v); mv_places = places } in
                   if unit_planned i s (i2n u) then Printf.printf "%s %d result moveerror\n" id !step else
-                  let (s', res) =
+                  let (s', res) = guard (
                     if kind = "plan" then g_exec_move g s mv
                     else begin
                       Printf.printf "%s %d move executable %b\n" id !step (g_move_executable g s mv);
@@ -345,13 +350,13 @@ let run_engine (id, lines) =
                       Printf.printf "%s %d est%s\n" id !step
                         (String.concat "" (List.map (fun x -> " " ^ x) (List.sort compare items)));
                       g_exec_checked g s mv
-                    end in
+                    end) in
                   !sols.(!cur) <- s';
                   Printf.printf "%s %d result %s\n" id !step (result_string res)
               | _ -> failwith "bad plan op")
          | "unplan" ->
              let u = unit_of_stop i (int_of_string (List.hd r)) in
-             let (s', res) = g_unplan_unit g s (i2n u) in
+             let (s', res) = guard (g_unplan_unit g s (i2n u)) in
              !sols.(!cur) <- s';
              Printf.printf "%s %d result %s\n" id !step (result_string res)
          | "copy" ->
